@@ -34,7 +34,8 @@ class SiteModel:
         keys = distinct([k for k, _ in self.obs])
         out = []
         for k in keys:
-            xs = [x for kk, x in self.obs if kk == k]
+            # an access without comparison (vp.ACCESS_ONLY) makes the key "accessed" and observes nothing
+            xs = [x for kk, x in self.obs if kk == k and type(x).__name__ != "_AccessOnly"]
             prev = MISSING
             if self.p is not MISSING and k in self.p:
                 prev = self.p[k]
@@ -71,7 +72,7 @@ class SiteModel:
             for k, ch in self._children():
                 if k in p:
                     out |= ch.pending()
-                else:
+                elif ch.obs:  # a key that was only accessed has no value that could be created
                     out.add("create")
             if any(k not in accessed for k in p):
                 out.add("trim")
@@ -113,7 +114,7 @@ class SiteModel:
             if op == "in":
                 return distinct(obs)
             if op == "getitem":
-                return {k: ch.after(F) for k, ch in self._children()}
+                return {k: ch.after(F) for k, ch in self._children() if ch.obs}
         if op == "eq":
             if "fix" in F and any(not (p == x) for x in obs):
                 return obs[0]
@@ -145,7 +146,7 @@ class SiteModel:
                     out[k] = ch.after(F)
             if "create" in F:
                 for k, ch in self._children():
-                    if k not in p:
+                    if k not in p and ch.obs:
                         out[k] = ch.after({"create"})
             return out
         raise AssertionError(op)
